@@ -31,6 +31,7 @@ class DecreasingSubroutine(FunctionContract):
     target = "prtpy/packing/greedy_covering.py::decreasing_subroutine"
     tier = "T1"
     min_obligations = 12
+    writes_args = (1,)          # frame clause: only `bins` (position 1) is written; `sorted_items` is only read (checked: it is a frozen sequence in this contract)
 
     def make_args(self, it, shape_):
         a = cover_args(it)
@@ -151,3 +152,94 @@ class TwoThirds(FunctionContract):
 
 
 twothirds = TwoThirds()
+
+
+class ThreeQuartersT1(FunctionContract):
+    """cflz_covering.threequarters, unbounded (T1).  The three class comprehensions over the sorted list are the consecutive windows of the
+    library lemma ClassWindows (premises checked on the real conditions of the code); the main `while True` loop carries conservation over the
+    three shrinking windows; the closing phases call decreasing_subroutine by contract."""
+    target = "prtpy/packing/cflz_covering.py::threequarters"
+    tier = "T1"
+    min_obligations = 20
+
+    def make_args(self, it, shape_):
+        from pyvc.lib import ClassWindows
+        it.hooks["sseq_comprehension"] = ClassWindows()
+        return cover_args(it)
+
+    uses = [decreasing_subroutine]
+
+    @staticmethod
+    def windows(c):
+        return c["big_items"], c["medium_items"], c["small_items"]
+
+    @staticmethod
+    def conservation(c):
+        b = c["bins"]
+        X, Y, Z = ThreeQuartersT1.windows(c)
+        rest = bag_union(bag_union(L.rbag(X.arr, X.lo, X.hi), L.rbag(Y.arr, Y.lo, Y.hi)), L.rbag(Z.arr, Z.lo, Z.hi))
+        return bag_union(b.G, rest) == bag_of(c.arg("items"))
+
+    @staticmethod
+    def common(c, inner):
+        b, B = c["bins"], c.t("binsize")
+        X, Y, Z = ThreeQuartersT1.windows(c)
+        sh = [x for x in shape(b, B) if not (inner and x[0] == "shape:last-not-covered")]
+        return sh + [("conservation:bins+three-remaining-classes=input", ThreeQuartersT1.conservation(c)),
+                     ("windows", z3.And(X.lo <= X.hi, X.hi <= Y.lo, Y.lo <= Y.hi, Y.hi <= Z.lo, Z.lo <= Z.hi))]
+
+    @staticmethod
+    def outer(c):
+        b = c["bins"]
+        X, Y, Z = ThreeQuartersT1.windows(c)
+        return ThreeQuartersT1.common(c, False) + [("C14:bin-is-empty-when-started", z3.Implies(Z.hi > Z.lo, z3.And(b.CNT[b.nb - 1] == 0, b.S[b.nb - 1] == 0)))]
+
+    @staticmethod
+    def fill(c):
+        return ThreeQuartersT1.common(c, True)
+
+    @staticmethod
+    def hints(c):
+        X, Y, Z = ThreeQuartersT1.windows(c)
+        items = c.arg("items")
+        s = c["items"]              # the sorted copy
+        out = [("empty", w.arr, w.lo, w.hi) for w in (X, Y, Z)]
+        out += [("concat", s.arr, (s.lo, X.hi), s.hi), ("concat", s.arr, (X.hi, Y.hi), s.hi)]
+        return out
+
+    loops = {0: LoopSpec("True", outer.__func__, name="bin-loop", hints=hints.__func__),
+             "header:binner.sums(bins)[-1] < binsize": LoopSpec(None, fill.__func__, name="fill-loop")}
+
+    @staticmethod
+    def step_big(c, args, kwargs):
+        b = args[0]
+        X, Y, Z = ThreeQuartersT1.windows(c)
+        B = c.t("binsize")
+        two = L.rtot(Y.arr, Y.lo, z3.If(Y.hi - Y.lo >= 2, Y.lo + 2, Y.hi))
+        return [("C14:open-with-the-largest-big-item-when-it-is-at-least-the-two-largest-medium-items",
+                 z3.And(args[1].t == X.arr[X.lo], z3.BoolVal(args[2] == -1), 2 * L.val(args[1].t) >= B, L.val(args[1].t) >= two))]
+
+    @staticmethod
+    def step_medium(c, args, kwargs):
+        X, Y, Z = ThreeQuartersT1.windows(c)
+        B = c.t("binsize")
+        v = L.val(args[1].t)
+        return [("C14:otherwise-open-with-the-(at-most-two)-largest-medium-items", z3.And(z3.BoolVal(args[2] == -1), 3 * v >= B, 2 * v < B))]
+
+    @staticmethod
+    def step_small(c, args, kwargs):
+        b = args[0]
+        X, Y, Z = ThreeQuartersT1.windows(c)
+        B = c.t("binsize")
+        k = L.fresh("k", L.IntS)
+        return [("C14:fill-with-the-smallest-small-item-while-not-covered",
+                 z3.And(args[1].t == Z.arr[Z.hi - 1], z3.BoolVal(args[2] == -1), b.S[b.nb - 1] < B, 3 * L.val(args[1].t) < B,
+                        z3.ForAll([k], z3.Implies(z3.And(Z.lo <= k, k < Z.hi), L.val(Z.arr[k]) >= L.val(args[1].t)))))]
+
+    calls = {("add_item_to_bin", 0): step_big.__func__, ("add_item_to_bin", 1): step_medium.__func__, ("add_item_to_bin", 2): step_small.__func__}
+
+    def post(self, c, kind, res):
+        return cover_post(c, kind, res)
+
+
+threequarters_t1 = ThreeQuartersT1()
